@@ -1,7 +1,7 @@
 (* Prop_C02.v — property theorems for C02, and nothing else: each statement is closed
    by `exact <lemma>` and followed by Print Assumptions. *)
 From Dig Require Import Base Sig State Graph GraphProofs Register Resolve Run Spec Check
-  ErrTable Err ErrTableCheck P_Once P_Frame P_Term.
+  ErrTable Err ErrTableCheck P_Once P_Frame P_Term GoTypes Parse RunRaw P_Glue.
 
 (* ---- C02: singletons.  wf_keys: single keys carry no group name, group keys
         carry one (what every parsed signature satisfies, P_Parse.C09_provide_keys) ---- *)
@@ -10,3 +10,14 @@ Theorem C02_holds : forall cfg b du h,
   chk_C02 h (map obs_of (run cfg b du h)) = [].
 Proof. exact P_Term.chk_C02_nil. Qed.
 Print Assumptions C02_holds.
+
+(* ---- the same for every history dig's own parser produces: `raw_only rh` says that
+        each operation of rh is a Scope call or a Provide / Decorate / Invoke of an
+        arbitrary Go value of the grammar (GoTypes) with arbitrary options;
+        `lower_op` parses it (Parse / RunRaw).  No well-formedness premise on keys
+        is left: the parser establishes it (P_Glue.lowered_wf) ---- *)
+Theorem C02_holds_raw : forall cfg b du rh, raw_only rh ->
+  wf_scopes (map lower_op rh) = true -> P_Once.wf_fns (map lower_op rh) = true -> cfg_dry cfg = false ->
+  chk_C02 (map lower_op rh) (map obs_of (run cfg b du (map lower_op rh))) = [].
+Proof. exact P_Glue.C02_raw. Qed.
+Print Assumptions C02_holds_raw.
